@@ -22,6 +22,12 @@ checks = [c["property_id"] for c in man["checks"]]
 if only:
     checks = [c for c in checks if c in only]
 seeds = sorted(d for d in os.listdir(os.path.join(V, SUB)) if os.path.exists(os.path.join(V, SUB, d, "patch.diff")))
+OUT = "MATRIX"
+if "--variants" in args:
+    # only the variants whose name starts with one of the given prefixes; results go to MATRIX_partial.* (the full table is not overwritten)
+    pref = tuple(args[args.index("--variants") + 1].split(","))
+    seeds = [d for d in seeds if d.startswith(pref)]
+    OUT = "MATRIX_partial"
 
 
 def run_variant(name):
@@ -50,7 +56,7 @@ def run_variant(name):
 t0 = time.time()
 with ThreadPoolExecutor(max_workers=jobs) as ex:
     results = dict(ex.map(run_variant, ["clean"] + seeds))
-json.dump(results, open(os.path.join(V, SUB, "MATRIX.json"), "w"), indent=1)
+json.dump(results, open(os.path.join(V, SUB, OUT + ".json"), "w"), indent=1)
 lines = ["# Seeded changes x checks", "",
          "`V` = VIOLATION reported (exit 1), `.` = silent (exit 0), `B` = BROKEN (exit 2). Row `clean` is the unchanged tree.", "",
          "| variant | " + " | ".join(checks) + " | caught by |", "|---|" + "---|" * (len(checks) + 1)]
@@ -62,6 +68,6 @@ for name in ["clean"] + seeds:
     cells = ["V" if r[c]["rc"] == 1 else ("B" if r[c]["rc"] == 2 else ".") for c in checks]
     caught = [c for c in checks if r[c]["rc"] == 1]
     lines.append(f"| {name} | " + " | ".join(cells) + " | " + ", ".join(caught) + " |")
-open(os.path.join(V, SUB, "MATRIX.md"), "w").write("\n".join(lines) + "\n")
+open(os.path.join(V, SUB, OUT + ".md"), "w").write("\n".join(lines) + "\n")
 print("\n".join(lines))
 print(f"wall {time.time() - t0:.0f}s")
